@@ -158,7 +158,12 @@ public:
                 const SymbT& tsymb, const long tidx[], const ValsT&, Rhs& trhs, const long nt, const long code) const {
         unsigned long ws = 0;
         for(long k = 0 ; k < ns ; ++k) ws += trace_sink()->weight(sidx[k]);
-        for(long k = 0 ; k < nt ; ++k) trhs[0][k] += ws;
+        unsigned long fs = 1;
+        if(trace_sink()->shiftAware){
+            auto o = SpaceIndexType::getRelativePosFromNeighborIndex(code);
+            fs = chi_wrap(tsymb.boxCoord, o, trace_sink()->leafLevel);
+        }
+        for(long k = 0 ; k < nt ; ++k) trhs[0][k] += fs * ws;
         trace_sink()->add("P2PTsm " + std::to_string(ssymb.spaceIndex) + " " + std::to_string(tsymb.spaceIndex) + " " + std::to_string(code)
                           + " sc=" + coordstr(ssymb.boxCoord) + " tc=" + coordstr(tsymb.boxCoord) + " : " + pidstr(sidx, ns) + " : " + pidstr(tidx, nt));
     }
